@@ -100,7 +100,7 @@ def run_parallel(ctx, tasks, jobs, deadline=None):
             running[i] = (pr, rd, time.time() + hard, attempt)
         time.sleep(0.05)
         for i in list(running):
-            pr, rd, deadline, attempt = running[i]
+            pr, rd, hard_dl, attempt = running[i]      # (not `deadline`: that is the tier's wall budget)
             if rd.poll():
                 try:
                     results[i] = rd.recv()
@@ -120,7 +120,7 @@ def run_parallel(ctx, tasks, jobs, deadline=None):
                 else:
                     results[i] = crashed(i, "worker process died (exit code %r) twice" % pr.exitcode)
                 del running[i]
-            elif time.time() > deadline:
+            elif time.time() > hard_dl:
                 pr.kill()
                 pr.join(5)
                 results[i] = crashed(i, "hard time limit exceeded; worker killed")
